@@ -266,6 +266,7 @@ def run (ctx):
   _skipwords(ctx, repo)
   _udp_zero(ctx, repo)
   _hdr_copies(ctx, repo)
+  _ipv4_sum_covers_header(ctx, repo)
   _lldp_tlv_header(ctx, repo)
   _llc_control(ctx, repo)
   _unparsed_payload(ctx, repo)
@@ -820,6 +821,35 @@ def _hdr_copies (ctx, repo):
                "the copy is built with %s (emission uses the default %s): the derived field this switch controls is recomputed in the emitted header but not in the checksummed copy, so the two differ whenever it changes (e.g. the data offset with TCP options)"
                % (", ".join("%s=%s" % (k_, norm(v_)) for k_, v_ in off), ", ".join(norm(defaults[k_]) for k_, v_ in off)), (mod, c), 'D3')
   ctx.stat('checksum methods rebuilding their header through hdr()', n)
+
+def _ipv4_sum_covers_header (ctx, repo):
+  """IPv4: the header checksum covers the whole header - options included.  Structurally: every attribute of self that hdr() puts
+  into the bytes it returns (other than the checksum itself) is also read by what checksum() sums."""
+  try: mod = repo.mod(PK + '.ipv4')
+  except Exception: return
+  cls = mod.classes.get('ipv4')
+  f = cls.methods.get('checksum') if cls else None; hf = cls.methods.get('hdr') if cls else None
+  if f is None or hf is None: return
+  def attrs (fn, exprs):
+    out = set()
+    for e in exprs:
+      for x in ast.walk(e):
+        if isinstance(x, ast.Attribute) and norm(x.value) == 'self' and isinstance(x.ctx, ast.Load) and x.attr not in cls.methods: out.add(x.attr)
+        # a local that was computed from attributes counts through its definition
+        if isinstance(x, ast.Name) and isinstance(x.ctx, ast.Load):
+          for v_, st_, k_ in q.reaching_assign(fn.node, x.id):
+            if v_ is not None and v_ is not e:
+              for y in ast.walk(v_):
+                if isinstance(y, ast.Attribute) and norm(y.value) == 'self' and isinstance(y.ctx, ast.Load) and y.attr not in cls.methods: out.add(y.attr)
+    return out
+  hr = [r.value for r in q.returns_of(hf.node) if r.value is not None]
+  sums = [c.args[0] for c in calls_in(f.node) if call_name(c) == 'checksum' and not (isinstance(c.func, ast.Attribute) and norm(c.func.value) == 'self') and c.args]
+  if not hr or not sums:
+    ctx.undecided('R-AGREE', f, "the IPv4 header checksum covers every byte hdr() emits", "return of hdr() / summed expression not found", f, 'D3'); return
+  emitted = attrs(hf, hr) - {'csum'}; summed = attrs(f, sums)
+  missing = sorted(emitted - summed)
+  ctx.ob('R-AGREE', f, "the IPv4 header checksum covers every byte hdr() emits", not missing, "%d attributes emitted, all summed" % len(emitted) if not missing else
+         "hdr() emits self.%s but checksum() does not sum it: a header that carries it (IHL > 5: options) goes out with a checksum computed over the fixed 20 bytes only - every router drops the packet" % ", self.".join(missing), f, 'D3')
 
 def _udp_zero (ctx, repo):
   """UDP: a computed checksum of zero goes on the wire as 0xffff (zero means 'no checksum', and is illegal over IPv6);
